@@ -120,6 +120,13 @@ def judge(case):
     got = lib(electrostatic_potential, bas, g, P, N, Z, transform=T, threshold_dist=thr)
     if np.geterr() != err0:
         return v.fail(f"numpy error state changed by the call: {err0} -> {np.geterr()}")
+    # the value depends on the arguments only: the same call again, and a call with another density matrix in between
+    lib(electrostatic_potential, bas, 0.5 * g, P, N, Z, transform=T, threshold_dist=thr)
+    again = lib(electrostatic_potential, bas, g, P, N, Z, transform=T, threshold_dist=thr)
+    if not np.array_equal(again, got, equal_nan=True):
+        with np.errstate(all="ignore"):
+            change = np.nanmax(np.abs(again - got))
+        return v.fail(f"electrostatic_potential returns different values when the same call is repeated (max change {change:.3e})")
     if got.shape != want.shape:
         return v.fail(f"electrostatic_potential shape {got.shape}, expected {want.shape}")
     tol = TOL * (nsc + esc) + 1e-300
